@@ -35,6 +35,8 @@ structure Ops (F : Type) where
   floorNat : F → Nat
   /-- `x.powi(k)` -/
   powi : F → Nat → F
+  /-- `f64::is_nan` (constantly `false` in exact arithmetic) -/
+  isNaN : F → Bool
 
 section numeric
 variable {F : Type} [Add F] [Sub F] [Mul F] [Div F] [LT F] [LE F] [DecidableLT F] [DecidableLE F]
@@ -137,11 +139,12 @@ def weightedIndexNew (O : Ops F) (ws : List F) : Except Err Unit :=
     else .ok ()
 
 /-- IWO `DeterministicFitnessProportional`: number of copies of an individual with objective `o`.
-`bonus` is NaN exactly when `best == worst` (`0/0`). -/
+`if bonus.is_nan()`: without overflow the only NaN is `0/0`, i.e. `best == worst`; exact arithmetic has
+no NaN, so that case is tested explicitly as well (on `Float` the disjunction equals `bonus.is_nan()`). -/
 def iwoCount (O : Ops F) (minSel maxSel : Nat) (worst best o : F) : Nat :=
   let bonus := (o - worst) / (best - worst)
   let bonusOffspring := O.ofNat (maxSel - minSel)
-  minSel + if eqF best worst then O.floorNat (bonusOffspring / (1 + 1)) else O.floorNat (bonus * bonusOffspring)
+  minSel + if O.isNaN bonus || eqF best worst then O.floorNat (bonusOffspring / (1 + 1)) else O.floorNat (bonus * bonusOffspring)
 
 /-- Stochastic universal sampling, the pointer walk.  `susInner`: advance `i` while
 `sum_weights < distance` (`weights[i]` out of bounds panics: `none`). -/
@@ -400,6 +403,7 @@ def floatOps : Ops Float where
   ofNat := Nat.toFloat
   floorNat := fun x => (Float.floor x).toUInt32.toNat
   powi := fun a k => powiGo 64 a k 1.0
+  isNaN := Float.isNaN
 
 abbrev FInd := Ind Float
 abbrev FPop := Pop Float
@@ -615,8 +619,10 @@ def inQuantifier (op : Op Float) (stack : List FPop) : Bool :=
   | [] => false
   | cur :: _ =>
     cur.all (fun i => i.obj.isSome) &&
+    -- finite values beyond 1e150 make the weight arithmetic overflow: outside the (exact-arithmetic) property
+    cur.all (fun i => let o := objOf i; !o.isFinite || o.abs ≤ 1e150) &&
     match op with
-    | .rouletteWheel _ off | .sus _ off => 0 ≤ off && off.isFinite
+    | .rouletteWheel _ off | .sus _ off => 0 ≤ off && off.isFinite && off ≤ 1e150
     | _ => true
 
 def handleSel (args : List Sexp) (implOut : Sexp) : Option CaseResult := do
